@@ -107,6 +107,7 @@ class MayRaise:
         self._alias_cache: Dict = {}
         self._pf_cache: Dict[str, FrozenSet[Fact]] = {}
         self._cpt_cache: Dict = {}
+        self._retiv: Dict[str, Tuple[float, float]] = {}
         self._pf_busy: Set[str] = set()
         self._exact_cache: Dict = {}
 
@@ -201,47 +202,106 @@ class MayRaise:
         return self.flows[fi.qualname]
 
     def param_facts(self, fi: FuncInfo) -> FrozenSet[Fact]:
-        """Integer ranges of the parameters of a private module-level helper, when every reference to the helper in the
-        package is a direct call whose argument has a known non-negative range at the call site."""
-        if fi.cls is not None or isinstance(fi.node, ast.Lambda) or not fi.name.startswith("_") or fi.qualname in self._pf_busy:
+        """Integer ranges (and one-character strings) of the parameters of a private module-level helper, when every
+        reference to the helper in the package is a direct call whose argument has that property at the call site.
+        Computed optimistically (assume, analyse the call sites under the assumption, verify): induction on call depth."""
+        if fi.cls is not None or isinstance(fi.node, ast.Lambda) or not fi.name.startswith("_"):
             return frozenset()
         if fi.qualname in self._pf_cache:
             return self._pf_cache[fi.qualname]
-        self._pf_busy.add(fi.qualname)
-        try:
-            sites: List[Tuple[FuncInfo, ast.Call]] = []
-            for cq, cfi in self.m.functions.items():
-                if cfi.module != fi.module and fi.name not in self.m.modules[cfi.module].source:
-                    continue
-                calls = {id(n.func) for n in ast.walk(cfi.node) if isinstance(n, ast.Call)}
-                for n in walk_no_nested(cfi.node):
-                    if isinstance(n, ast.Name) and isinstance(n.ctx, ast.Load) and n.id == fi.name and self.m.resolve_name(cfi.module, n.id) == fi.qualname and id(n) not in calls:
-                        return self._pf(fi, frozenset())       # passed around as a value: call sites unknown
-                    if isinstance(n, ast.Call) and isinstance(n.func, ast.Name) and self.m.resolve_name(cfi.module, n.func.id) == fi.qualname:
-                        sites.append((cfi, n))
-            if not sites or any(c.qualname == fi.qualname for c, _ in sites):
-                return self._pf(fi, frozenset())
-            ps = fi.params()
-            stores = {x.id for x in walk_no_nested(fi.node) if isinstance(x, ast.Name) and isinstance(x.ctx, ast.Store)}
+        sites: List[Tuple[FuncInfo, ast.Call]] = []
+        for cq, cfi in self.m.functions.items():
+            if fi.name not in self.m.modules[cfi.module].source or isinstance(cfi.node, ast.Lambda):
+                continue
+            calls = {id(n.func) for n in ast.walk(cfi.node) if isinstance(n, ast.Call)}
+            for n in walk_no_nested(cfi.node):
+                if isinstance(n, ast.Name) and isinstance(n.ctx, ast.Load) and n.id == fi.name and self.m.resolve_name(cfi.module, n.id) == fi.qualname and id(n) not in calls:
+                    return self._pf(fi, frozenset())       # passed around as a value: call sites unknown
+                if isinstance(n, ast.Call) and isinstance(n.func, ast.Name) and self.m.resolve_name(cfi.module, n.func.id) == fi.qualname:
+                    sites.append((cfi, n))
+        if not sites or any(c.qualname == fi.qualname for c, _ in sites):
+            return self._pf(fi, frozenset())
+        ps = fi.params()
+        a_ = fi.node.args
+        allp = a_.posonlyargs + a_.args
+        defaults = {p_.arg: d for p_, d in zip(allp[len(allp) - len(a_.defaults):], a_.defaults)}
+        defaults.update({p_.arg: d for p_, d in zip(a_.kwonlyargs, a_.kw_defaults) if d is not None})
+        stores = {x.id for x in walk_no_nested(fi.node) if isinstance(x, ast.Name) and isinstance(x.ctx, ast.Store)}
+
+        def arg_of(call: ast.Call, i: int, p_: str):
+            if any(isinstance(x, ast.Starred) for x in call.args) or any(k.arg is None for k in call.keywords):
+                return None, False
+            if i < len(call.args):
+                return call.args[i], False
+            for k in call.keywords:
+                if k.arg == p_:
+                    return k.value, False
+            return (defaults[p_], True) if p_ in defaults else (None, False)
+
+        annos = {a.arg: (norm(a.annotation) if a.annotation is not None else "") for a in allp + a_.kwonlyargs}
+        int_params = [p_ for p_ in ps if p_ not in stores and annos.get(p_) == "int"]
+        hyp = frozenset({("GE0", p_) for p_ in int_params} | {("INT", p_, 0, INF) for p_ in int_params})
+        for _round in range(3):
+            self._pf_cache[fi.qualname] = hyp
+            self.flows.pop(fi.qualname, None)
+            for k in [k for k in self._retiv if k == fi.qualname]:
+                del self._retiv[k]
             out: Set[Fact] = set()
             for i, p_ in enumerate(ps):
                 if p_ in stores:
                     continue
                 lo, hi = INF, -INF
+                one_char = True
                 for cfi, call in sites:
-                    a = call.args[i] if i < len(call.args) and not any(isinstance(x, ast.Starred) for x in call.args) else next((k.value for k in call.keywords if k.arg == p_), None)
+                    a, is_default = arg_of(call, i, p_)
                     if a is None:
-                        lo, hi = -INF, INF
+                        lo, hi, one_char = -INF, INF, False
                         break
-                    cf = self.flow_for(cfi).facts_at.get(id(call), frozenset()) if cfi.qualname not in self._pf_busy else frozenset()
-                    al, ah = self.ival(a, cf, cfi)
+                    if not (isinstance(a, ast.Constant) and isinstance(a.value, (str, bytes)) and len(a.value) == 1):
+                        one_char = False
+                    cf = frozenset() if is_default else self.flow_for(cfi).facts_at.get(id(call), frozenset())
+                    al, ah = self.ival(a, cf, fi if is_default else cfi)
                     lo, hi = min(lo, al), max(hi, ah)
                 if lo >= 0:
                     out.add(("GE0", p_))
                     out.add(("INT", p_, lo, hi))
-            return self._pf(fi, frozenset(out))
-        finally:
-            self._pf_busy.discard(fi.qualname)
+                if one_char:
+                    out.add(("LEN==", p_, "1"))
+            got = frozenset(out)
+            assumed_names = {f[1] for f in hyp if f[0] == "GE0"}
+            got_names = {f[1] for f in got if f[0] == "GE0"}
+            if assumed_names <= got_names:
+                # the hypothesis is confirmed (ranges computed under it hold by induction); keep the computed ranges
+                self.flows.pop(fi.qualname, None)
+                self._retiv.pop(fi.qualname, None)
+                return self._pf(fi, got)
+            hyp = frozenset(f for f in hyp if f[1] in got_names) | frozenset(f for f in got if f[0] == "LEN==")
+            for cfi, _ in sites:
+                self.flows.pop(cfi.qualname, None)
+        self.flows.pop(fi.qualname, None)
+        self._retiv.pop(fi.qualname, None)
+        return self._pf(fi, frozenset(f for f in hyp if f[0] == "LEN=="))
+
+    def ret_ival(self, callee: FuncInfo) -> Tuple[float, float]:
+        """Hull of the integer intervals of every value the function returns."""
+        if isinstance(callee.node, ast.Lambda):
+            return (-INF, INF)
+        if callee.qualname in self._retiv:
+            return self._retiv[callee.qualname]
+        self._retiv[callee.qualname] = (-INF, INF)         # in progress: no information
+        fl = self.flow_for(callee)
+        lo, hi = INF, -INF
+        rets = [r for r in walk_no_nested(callee.node) if isinstance(r, ast.Return)]
+        if not rets:
+            lo, hi = -INF, INF
+        for r in rets:
+            if r.value is None:
+                lo, hi = -INF, INF
+                break
+            a, b = self.ival(r.value, fl.facts_at.get(id(r), frozenset()), callee)
+            lo, hi = min(lo, a), max(hi, b)
+        self._retiv[callee.qualname] = (lo, hi)
+        return (lo, hi)
 
     def _pf(self, fi: FuncInfo, v: FrozenSet[Fact]) -> FrozenSet[Fact]:
         self._pf_cache[fi.qualname] = v
@@ -481,6 +541,11 @@ class MayRaise:
         x = norm(e.value)
         idx = e.slice
         # typing constructs (t.List[...]) never reach here: annotations are not walked
+        if bt == prim("match") and isinstance(idx, ast.Constant) and isinstance(idx.value, (str, int)) and not store:
+            # m["name"] is m.group("name"): that the group exists is decided against the pattern itself (C17 G2 / C15)
+            self.implicit_sites.append({"function": fi.qualname, "construct": norm(e)[:100], "kind": "match-subscript", "exception": "IndexError",
+                                        "verdict": "deferred", "reason": "group existence decided by the regular-expression analysis", "line": e.lineno})
+            return None
         if bt[0] in ("dict", "dictlit") and store:
             return self.site(ctx, e, "dict-store", "KeyError", True, "dict item assignment never raises KeyError")
         if bt[0] in ("dict",):
@@ -590,11 +655,23 @@ class MayRaise:
                 elif isinstance(s.value, ast.Name) and self.r.env(fi).get(s.value.id, UNK)[0] == "opt":
                     inner = self.r.strip_opt(self.r.env(fi)[s.value.id])
                     ok = inner[0] == "inst" and inner[1] in self.m.classes and len(self.m.classes[inner[1]].annos) == n
+                stars = [x for x in t.elts if isinstance(x, ast.Starred)]
+                if not ok and len(stars) == 1:
+                    need = n - 1
+                    v = s.value
+                    # x.split(sep) / x.rsplit(sep) with an explicit separator yields at least one element
+                    if need <= 1 and isinstance(v, ast.Call) and isinstance(v.func, ast.Attribute) and v.func.attr in ("split", "rsplit") and v.args \
+                            and self.r.strip_opt(self.r.type_of(v.func.value, fi)) in (prim("str"), prim("bytes"), prim("bytearray"), prim("strlike")):
+                        ok, why = True, "split with a separator returns at least one element"
+                    elif need == 0:
+                        ok, why = True, "only a starred target"
+                    elif isinstance(v, (ast.Tuple, ast.List)) and len(v.elts) >= need:
+                        ok = True
                 e = self.site(ctx, s, "tuple-unpack", "ValueError", ok, why)
                 if e:
                     out.add(e)
             for el in t.elts:
-                out |= self.target_escapes(el, s, ctx)
+                out |= self.target_escapes(el.value if isinstance(el, ast.Starred) else el, s, ctx)
         elif isinstance(t, ast.Attribute):
             out |= self.expr_escapes(t.value, ctx)
         return out
@@ -724,6 +801,12 @@ class MayRaise:
             return (min(a[0], b[0]), max(a[1], b[1]))
         if isinstance(e, ast.Call) and isinstance(e.func, ast.Name) and e.func.id == "len":
             return (0, MAXSIZE)        # len() is a Py_ssize_t
+        if isinstance(e, ast.Call) and isinstance(e.func, ast.Name) and e.func.id not in fi.params():
+            q = self.m.resolve_name(fi.module, e.func.id)
+            callee = self.m.functions.get(q) if q else None
+            if callee is not None and callee.cls is None and norm(callee.node.returns) == "int" if callee is not None and not isinstance(callee.node, ast.Lambda) and callee.node.returns is not None else False:
+                rl, rh = self.ret_ival(callee)
+                return (max(lo, rl), min(hi, rh))
         if isinstance(e, ast.Call) and isinstance(e.func, ast.Attribute) and e.func.attr == "bit_length" and not e.args:
             xl, xh = self.ival(e.func.value, facts, fi)
             if xl >= 0 and xh != INF:
@@ -1054,6 +1137,8 @@ class MayRaise:
                 self.implicit_sites.append({"function": fi.qualname, "construct": norm(e)[:100], "kind": "ord", "exception": "TypeError",
                                             "verdict": "deferred", "reason": why, "line": e.lineno})
                 return out
+            if a is not None and ("LEN==", norm(a), "1") in facts:
+                ok, why = True, "argument is a one-character string at every call site"
             add("ord", "TypeError", bool(ok), why)
             return out
         if name == "struct.unpack":
